@@ -96,7 +96,15 @@ def _rest(ctx, chk, raw, mir, W, g, sites_by):
     R4 = chk.rule("R-PROTO-4", "Action::consume maps Continue->Ok(()), Stop->Err(ConsumerStopRequested), Error(e)->Err(ConsumerError(e)); "
                   "State::Complete is constructed at exactly one site, in parse_inst, on the path where the first word of an instruction "
                   "could not be read")
-    f = ctx.rspirv.fn(PAR, "consume", "Action")
+    # Action's conversion into the parse result: named `consume` today; otherwise the one method of Action that takes the action by value
+    cands = [x for x in ctx.rspirv.fns(PAR, "Action", False) if any(q[0] == "self" for q in x["sig"]["params"])]
+    named = [x for x in cands if x["name"] == "consume"]
+    if len(named) == 1:
+        f = named[0]
+    elif len(cands) == 1:
+        f = cands[0]
+    else:
+        raise Anchor("Action: expected one method turning an action into the parse result, found %s" % [x["name"] for x in cands])
     from ..symeval import SymEval, Hooks
 
     class AH(Hooks):
@@ -112,9 +120,9 @@ def _rest(ctx, chk, raw, mir, W, g, sites_by):
             table[name] = SymEval(AH(v), "Action::consume").run(f, {})
         want = {"Continue": ("ok", ("unit",)), "Stop": ("err", ("enum", "State::ConsumerStopRequested", [])),
                 "Error": ("err", ("enum", "State::ConsumerError", [("sym", "CONSUMER_ERROR")]))}
-        chk.check(R4, table == want, "Action::consume", "mapping is %s" % table, raw.where("consume", "Action"), sample=str(table))
+        chk.check(R4, table == want, "Action::consume", "mapping is %s" % table, raw.where(f["name"], "Action"), sample=str(table))
     except Anchor as ex:
-        chk.bad(R4, "Action::consume", "not analysable: %s" % ex, raw.where("consume", "Action"))
+        chk.bad(R4, "Action::consume", "not analysable: %s" % ex, raw.where(f["name"], "Action"))
     csites = []
     for p, fn_ in mir.fns.items():
         for b in fn_["blocks"]:
